@@ -3,6 +3,9 @@
 package server
 
 import (
+	"net/http"
+	"strings"
+
 	"github.com/resgateio/resgate/server/codec"
 	"github.com/resgateio/resgate/server/reserr"
 	"github.com/resgateio/resgate/zzvf"
@@ -273,5 +276,94 @@ func VF_C08_S1_Counts() {
 			zzvf.Assert(sub.direct == direct, "failed-unsubscribe-leaves-count")
 		}
 		zzvf.Assert(sub.direct >= 0, "direct-never-negative")
+	}
+}
+
+func init() {
+	zzvf.Register("VF_C14_K4_CallPath", VF_C14_K4_CallPath)
+}
+
+// vfMQSubject: a subject as it may be published: exactly `tokens` non-empty
+// dot separated tokens of printable non-space ASCII without wildcards or '?'.
+func vfMQSubject(s string, tokens int) bool {
+	tok, n := 0, 1
+	for i := 0; i < len(s); i++ {
+		c := s[i]
+		if c == '.' {
+			if tok == 0 {
+				return false
+			}
+			tok = 0
+			n++
+			continue
+		}
+		if c < 33 || c > 126 || c == '*' || c == '>' || c == '?' {
+			return false
+		}
+		tok++
+	}
+	return tok > 0 && (tokens < 0 || n == tokens)
+}
+
+// VF_C14_K4_CallPath: an HTTP call request through the real apiHandler and
+// handleCall (not through a copy of their guards): POST (or a mapped PUT) on
+// /api/test/model/<tail> with n symbolic tail bytes (percent escapes
+// included), with and without a query string. Either the request is refused
+// with 404 and no service traffic at all, or every subject handed to the
+// messaging client is access.test.model / call.test.model.<one safe token>.
+func VF_C14_K4_CallPath() {
+	n := zzvf.Param("n")
+	tail := zzvf.Str("tail", n)
+	put := "replace"
+	w := vfNewWorld(Config{APIPath: "/api/", PUTMethod: &put})
+	// the tail is the method segment only (a '/' would extend the resource
+	// id, whose mapping K3 covers; a symbolic resource id cannot be a map key
+	// in the connection's and the cache's tables)
+	for i := 0; i < len(tail); i++ {
+		zzvf.Assume(tail[i] != '/')
+	}
+	method, path := "POST", "/api/test/model/"+tail
+	rawQuery := []string{"", "q=foo"}[zzvf.Choose("query", 2)]
+	zzvf.Reach("c14k4-start")
+	rec, cl := w.vfHTTP(method, path, rawQuery, "", http.Header{})
+	w.settle()
+	for i := 0; i < 4; i++ {
+		p := w.mq.pending()
+		if len(p) == 0 {
+			break
+		}
+		if strings.HasPrefix(p[0].subject, "access.") {
+			w.mq.answer(p[0], []byte(`{"result":{"get":true,"call":"*"}}`), nil)
+		} else {
+			w.mq.answer(p[0], []byte(`{"result":null}`), nil)
+		}
+		w.settle()
+	}
+	if cl == nil {
+		zzvf.Assert(rec.status == 404 || rec.status == 405, "refused-path-is-answered-404")
+		zzvf.Assert(len(w.mq.reqs) == 0, "refused-path-causes-no-service-traffic")
+		return
+	}
+	zzvf.Reach("c14k4-accepted")
+	for _, q := range w.mq.reqs {
+		switch {
+		case strings.HasPrefix(q.subject, "access."):
+			zzvf.Assert(vfMQSubject(q.subject, -1), "access-subject-is-grammatical")
+		case strings.HasPrefix(q.subject, "call."):
+			zzvf.Assert(vfMQSubject(q.subject, -1), "call-subject-has-only-safe-tokens")
+			if method == "POST" {
+				// every '/' of the tail adds one token to the resource id;
+				// the method is the single last token
+				slashes := 0
+				for i := 0; i < len(tail); i++ {
+					if tail[i] == '/' {
+						slashes++
+					}
+				}
+				zzvf.Assert(vfMQSubject(q.subject, 4+slashes), "call-method-is-one-safe-token")
+			}
+		default:
+			zzvf.Assert(false, "only-access-and-call-requests-are-made")
+		}
 	}
 }
